@@ -229,6 +229,24 @@ FreeHomeDir(char *homedir)
  * ftproot as "/". So on Agent, to get the absolute file path we need to prepend
  * the ftproot to it.
  */
+/* a ".." path component would leave ftproot (and so would a name that does not start
+ * with '/': ftproot is prepended without a separator) */
+static int
+HasDotDotComponent(const char* path)
+{
+	const char* s = path;
+	while(*s != '\0') {
+		const char* e = strchr(s, '/');
+		size_t len = (e != NULL) ? (size_t)(e - s) : strlen(s);
+		if(len == 2 && s[0] == '.' && s[1] == '.')
+			return 1;
+		if(e == NULL)
+			break;
+		s = e + 1;
+	}
+	return 0;
+}
+
 char*
 ConvertPath(char* path)
 {
@@ -237,7 +255,9 @@ ConvertPath(char* path)
 	
 	if( (path == NULL) ||
 		(strlen(path) == 0) ||
-		(strlen(path)+strlen(ftproot) > PATH_MAX - 1) ) {
+		(strlen(path)+strlen(ftproot) > PATH_MAX - 1) ||
+		(path[0] != '/') ||
+		HasDotDotComponent(path) ) {
 
 		rfbLog("File [%s]: Method [%s]: cannot create path for file transfer\n",
 				__FILE__, __FUNCTION__);
